@@ -61,6 +61,7 @@ type Item struct {
 }
 
 type Sim struct {
+	SlowLine bool // see slowReader
 	line io.ReadWriteCloser
 	mu   sync.Mutex
 	wmu  sync.Mutex
@@ -166,9 +167,26 @@ func (s *Sim) Raw(b []byte) { s.raw(b) }
 
 func (s *Sim) Close() { s.line.Close() }
 
+// slowReader takes at most 16 bytes at a time from the line, 200 microseconds apart: a serial line on which a frame takes
+// milliseconds, so that whoever else wants to write has queued up by the time a write ends.
+type slowReader struct{ s *Sim }
+
+func (r slowReader) Read(p []byte) (int, error) {
+	r.s.mu.Lock()
+	slow := r.s.SlowLine
+	r.s.mu.Unlock()
+	if slow {
+		if len(p) > 16 {
+			p = p[:16]
+		}
+		time.Sleep(200 * time.Microsecond)
+	}
+	return r.s.line.Read(p)
+}
+
 func (s *Sim) serve() {
 	defer close(s.done)
-	rd := bufio.NewReader(s.line)
+	rd := bufio.NewReader(slowReader{s})
 	for {
 		p := make([]byte, 2)
 		if _, err := io.ReadFull(rd, p); err != nil {
